@@ -473,6 +473,23 @@ func (g *Gen) sliceOp(st *State, x *ssa.Slice) {
 	if a.Kind == "ptr" && a.Cell != nil { // pointer to array
 		a = st.cells[a.Cell]
 	}
+	if a.Kind == "int" && g.opaqueStr && isStringType(x.X.Type()) {
+		// substring of an opaque string: a new opaque identity substr(s, lo, hi)
+		sl := fmt.Sprintf("(%s %s)", g.uf("strlen", 1, "Int"), a.T)
+		g.assume(st, fmt.Sprintf("(and (<= 0 %s) (<= %s %s))", sl, sl, maxLen))
+		lo, hi := "0", sl
+		if x.Low != nil {
+			lo = g.val(st, x.Low).T
+		}
+		if x.High != nil {
+			hi = g.val(st, x.High).T
+		}
+		g.safety(st, "slice", x.Pos(), fmt.Sprintf("(and (<= 0 %s) (<= %s %s) (<= %s %s))", lo, lo, hi, hi, sl))
+		r := fmt.Sprintf("(%s %s %s %s)", g.uf("substr", 3, "Int"), a.T, lo, hi)
+		g.assume(st, fmt.Sprintf("(and (= (%s %s) (- %s %s)) (= (= %s 0) (= %s %s)))", g.uf("strlen", 1, "Int"), r, hi, lo, r, hi, lo))
+		g.regs[x] = Val{T: r, Kind: "int"}
+		return
+	}
 	if a.Len == "" {
 		panic(oos("slice of a value without length"))
 	}
@@ -495,6 +512,16 @@ func (g *Gen) sliceOp(st *State, x *ssa.Slice) {
 func (g *Gen) indexLike(st *State, in ssa.Value, xa, xi ssa.Value) {
 	a := g.val(st, xa)
 	i := g.val(st, xi)
+	if a.Kind == "int" && g.opaqueStr && isStringType(xa.Type()) {
+		sl := fmt.Sprintf("(%s %s)", g.uf("strlen", 1, "Int"), a.T)
+		// opaque strings are value identities: the empty string is 0 and nothing else has length 0
+		g.assume(st, fmt.Sprintf("(and (>= %s 0) (= (= %s 0) (= %s 0)))", sl, sl, a.T))
+		g.safety(st, "index", in.Pos(), fmt.Sprintf("(and (<= 0 %s) (< %s %s))", i.T, i.T, sl))
+		e := fmt.Sprintf("(%s %s %s)", g.uf("strbyte", 2, "Int"), a.T, i.T)
+		g.assume(st, fmt.Sprintf("(and (<= 0 %s) (<= %s 255))", e, e))
+		g.regs[in] = Val{T: e, Kind: "int"}
+		return
+	}
 	if a.Len == "" {
 		panic(oos("index of a value without length"))
 	}
